@@ -32,6 +32,7 @@ class NF(object):
         self.unwrap_classes = set(unwrap_classes)
         self.self_attrs = self_attrs
         self.bad_unwrap = None     # (node, class text) if an unwrap tested another class
+        self.inverted_unwrap = None   # the unwrap statement sits under `not isinstance(...)`
 
     def _is_unwrap_test(self, test, env):
         """isinstance(<param>, Qty) -> param name (or None)."""
@@ -54,6 +55,14 @@ class NF(object):
         for i, st in enumerate(body):
             if isinstance(st, ast.If) and not st.orelse and len(st.body) == 1 \
                     and isinstance(st.body[0], ast.Assign):
+                test_ = st.test
+                if isinstance(test_, ast.UnaryOp) and isinstance(test_.op, ast.Not):
+                    pi = self._is_unwrap_test(test_.operand, env)
+                    asg_ = st.body[0]
+                    if pi and len(asg_.targets) == 1 and norm(asg_.targets[0]) == pi and norm(asg_.value) == '%s.value' % pi:
+                        self.inverted_unwrap = st
+                        env[pi] = ('P', pi)
+                        continue
                 p = self._is_unwrap_test(st.test, env)
                 asg = st.body[0]
                 if p and len(asg.targets) == 1 and isinstance(asg.targets[0], ast.Name) \
